@@ -128,6 +128,26 @@ def _simplifications(op):
             for key, val in (("mergebuf", 20_000_000), ("max_merge", 200)):
                 if op["unordered"].get(key) != val:
                     o = copy.deepcopy(op); o["unordered"][key] = val; out.append(o)
+    f = op.get("fault")
+    if f:
+        # fault simplification: earliest chunk, first position, simplest kind, earliest line/open/task
+        k = f.get("kind")
+        if k == "F1":
+            for key, val in (("chunk", 0), ("pos", "first"), ("sub", "oob")):
+                if f.get(key) != val:
+                    o = copy.deepcopy(op); o["fault"][key] = val; out.append(o)
+        elif k == "F2" and f.get("chunk"):
+            o = copy.deepcopy(op); o["fault"]["chunk"] = 0; out.append(o)
+            o = copy.deepcopy(op); o["fault"]["chunk"] = f["chunk"] - 1; out.append(o)
+        elif k == "F3" and f.get("line", 1) > 1:
+            for ln in (1, f["line"] // 2, f["line"] - 1):
+                if ln >= 1 and ln != f["line"]:
+                    o = copy.deepcopy(op); o["fault"]["line"] = ln; out.append(o)
+        elif k == "F4" and f.get("open"):
+            o = copy.deepcopy(op); o["fault"]["open"] = 0; out.append(o)
+            o = copy.deepcopy(op); o["fault"]["open"] = f["open"] - 1; out.append(o)
+        elif k == "F6" and f.get("task"):
+            o = copy.deepcopy(op); o["fault"]["task"] = 0; out.append(o)
     for key in ("nproc",):
         if op.get(key, 1) > 1:
             o = copy.deepcopy(op); o[key] = 1; out.append(o)
